@@ -65,7 +65,8 @@ def run(tier):
                 c["min_length:tool-count-below-model-count"] += 1
         elif b.get("min_length_instrs") == n:
             # the other component (position bounds) is the larger one: the theorem does not speak about it
-            c["min_length:position-bound-component-larger (witness only)"] += 1
+            c["min_length:position-bound-component-larger"] += 1
+            uncovered.append((t, e, None))
         else:
             uncovered.append((t, e, n))
     # the count the tool publishes is larger than the one the theorem covers: look for a realizing sequence shorter than the published minimum
@@ -86,12 +87,16 @@ def run(tier):
     for o, (k, seq) in zip(drv.batch(ureqs), umeta):
         if o.startswith("ok") and k not in shorter:
             shorter[k] = seq
+    enumerated_below = {k for k, _ in umeta}
     for k, (t, e, n) in enumerate(uncovered):
         b = e["bounds"]
         if k in shorter:
             violations.append({"kind": "min-length-above-a-realizing-sequence", "input": " ".join(e["plain"]), "options": t["opts"], "spec": e["spec"],
                                "what": "min_length = %s (min_length_instrs = %s) but %s (length %d) realizes the specification of %s" %
                                        (b["min_length"], b.get("min_length_instrs"), list(shorter[k]), len(shorter[k]), " ".join(e["plain"]))})
+        elif n is None:
+            # min_length comes from the position bounds, which the theorem does not cover: here only the enumeration speaks
+            c["min_length:position-bound-component: " + ("no shorter realizing sequence (exhaustive)" if k in enumerated_below else "too large to enumerate (witness only)")] += 1
         else:
             violations.append({"kind": "min-length-not-covered-by-the-theorem", "input": " ".join(e["plain"]), "options": t["opts"], "spec": e["spec"],
                                "no_failing_input": True,
